@@ -134,7 +134,9 @@ func c05Body(c c05cfg) func() {
 			a.Hub.RegisterRemoteSKI(b.SKI)
 			b.Hub.RegisterRemoteSKI(a.SKI)
 		}
-		if !c.narrow {
+		// schedules of the initial convergence are explored by the scenarios without disturbances; with
+		// disturbances the exploration starts at the first one
+		if !c.narrow && len(c.dist) == 0 {
 			simrt.Mark()
 		}
 		switch c.order {
@@ -160,8 +162,8 @@ func c05Body(c c05cfg) func() {
 			simrt.Go("regB", func() { b.Hub.RegisterRemoteSKI(a.SKI) })
 		}
 		simrt.RunFor(5 * time.Second)
-		for _, d := range c.dist {
-			if c.narrow {
+		for i, d := range c.dist {
+			if c.narrow || i == 0 {
 				simrt.Mark()
 			}
 			w.disturb(d, c)
@@ -256,11 +258,16 @@ func c05Scenarios(r *hx.Run) []hx.Scenario {
 			}
 		}
 		for _, d := range c05Disturbances {
+			if !r.Thorough() && d == "eof" {
+				continue // quick: the link cut stands for both kinds of transport failure
+			}
 			cfgs = append(cfgs, c05cfg{swap: swap, order: "together", reg: "before", dist: []string{d}})
 		}
 		// attempts that fail: an outage, and a peer that can only be reached in one direction
 		cfgs = append(cfgs, c05cfg{swap: swap, order: "together", reg: "before", dist: []string{"outage"}})
-		cfgs = append(cfgs, c05cfg{swap: swap, order: "together", reg: "before", dist: []string{"outage"}, oneWay: true})
+		if r.Thorough() {
+			cfgs = append(cfgs, c05cfg{swap: swap, order: "together", reg: "before", dist: []string{"outage"}, oneWay: true})
+		}
 		cfgs = append(cfgs, c05cfg{swap: swap, order: "A-first", reg: "after", oneWay: true})
 		// the same with the second mDNS implementation (synchronous answers, no re-announcement events)
 		cfgs = append(cfgs, c05cfg{swap: swap, order: "together", reg: "before", simple: true})
@@ -275,7 +282,7 @@ func c05Scenarios(r *hx.Run) []hx.Scenario {
 				}
 			}
 		} else {
-			for _, p := range [][2]string{{"discA", "discB"}, {"cut", "discA"}, {"restartA", "cut"}, {"discB", "restartB"}, {"cut", "restartB"}, {"cut", "restartA"}} {
+			for _, p := range [][2]string{{"discA", "discB"}, {"cut", "discA"}, {"restartA", "cut"}, {"discB", "restartB"}, {"cut", "restartB"}} {
 				cfgs = append(cfgs, c05cfg{swap: swap, order: "A-first", reg: "before", dist: []string{p[0], p[1]}})
 			}
 		}
@@ -285,6 +292,9 @@ func c05Scenarios(r *hx.Run) []hx.Scenario {
 	focus := []string{"prepareConnectionInitation", "http.serve", "keepThisConnection", "eportMdnsEntries", "coordinateConnectionInitations", "mdns.deliver", "start", "reg"}
 	var out []hx.Scenario
 	for _, c := range cfgs {
+		if !r.Thorough() && c.quiet == 0 {
+			c.quiet = 45 * time.Second // quick: two of the longest back-off delays (20 s); thorough: 90 s
+		}
 		// delay bounding: at most d departures from the default scheduler among the focus goroutines,
 		// and at most one (two thorough) non-default back-off duration
 		d, f := 1, 1
@@ -307,6 +317,8 @@ func c05Scenarios(r *hx.Run) []hx.Scenario {
 			d := 2
 			if r.Thorough() {
 				d = 3
+			} else if swap || reg == "after" {
+				d = 1 // quick: two deviations only for the plain simultaneous start
 			}
 			c := c05cfg{swap: swap, order: "together", reg: reg, quiet: 35 * time.Second}
 			out = append(out, hx.Scenario{Name: "c05:race:" + c.name(), Body: c05Body(c), Bounds: simrt.Bounds{Preempt: d, Fault: 0, Total: d},
